@@ -1,3 +1,159 @@
-import Econf.Layered
+import Econf.Lemmas.LayeredLemmas
+
+/-!
+  C06 — every file passes the caller's check before use; one rejection yields nothing.
+
+  `consultedPaths` is the list of all paths a layered read can consult, in processing order
+  (main-file candidates from the highest layer down, then the drop-ins layer by layer in byte-wise
+  name order).  For every tree, every parameter set and every callback `f`:
+  * `C06_history_trace`: the callback is called with a sub-sequence of these paths, in this order;
+    every file that is opened was accepted by the call directly before it (`traceOk`); after a
+    rejecting call nothing follows; the call fails with the callback-failed code exactly when the
+    last callback call rejected;
+  * `C06_file`: per file, content reaches the result only through `[cb path, open path]`;
+  * `C06_no_config` / `C06_no_history`: a failed read hands back no configuration / no history.
+-/
+
+set_option linter.unusedSimpArgs false
+
 namespace Econf
+
+/-- every path a history read may consult, in processing order -/
+def consultedPaths (fs : FS) (dirs : List Str) (name : Str) (sfx : Str) (postfixes : List Str) : List Str :=
+  (if name.isEmpty then [] else mainCandidates dirs name sfx) ++ dropinPaths fs dirs name sfx postfixes
+
+def historyFailedCb : Except (Err × Bool) (List KeyFile) → Bool
+  | .error (.parsingCallbackFailed, _) => true
+  | _ => false
+
+theorem C06_history_trace (fs : FS) (f : Nat → Str → Bool) (s : RdState) (dirs : List Str) (name : Str) (suffix : Option Str)
+    (delim comment : Str) (join python : Bool) (confDirs : List Str) :
+    let r := readHistory { fs := fs, cb := some f } s dirs (some name) suffix (some delim) comment join python confDirs
+    let sfx := dotSuffix (some name) suffix
+    let postfixes := if confDirs.isEmpty then [sfx ++ [0x2e, 0x64]] else confDirs
+    SeqSpec fs f s r.1 (consultedPaths fs dirs name sfx postfixes) (historyFailedCb r.2) := by
+  intro r sfx postfixes
+  simp only [r, readHistory]
+  by_cases hne : name.isEmpty = true
+  · -- drop-ins only
+    simp only [hne, if_true, consultedPaths, List.nil_append]
+    have hseq := readSeq_spec fs f join python delim comment s (dropinPaths fs dirs name sfx postfixes)
+    simp only at hseq
+    cases hr : (readSeq { fs := fs, cb := some f } join python delim comment s (dropinPaths fs dirs name sfx postfixes)).2 with
+    | error e =>
+      rw [pair_eta _ _ hr]; rw [hr] at hseq
+      simp only
+      have : historyFailedCb (Except.error (e, true) : Except (Err × Bool) (List KeyFile)) = isCbFailed (Except.error e : Except Err (List KeyFile)) := by
+        cases e <;> rfl
+      rw [this]; exact hseq
+    | ok drops =>
+      rw [pair_eta _ _ hr]; rw [hr] at hseq
+      simp only [Option.toList, List.nil_append]
+      have hseq' := hseq
+      simp only [isCbFailed] at hseq'
+      by_cases hd : drops.isEmpty = true
+      · simp only [hd, if_true, historyFailedCb]; exact hseq'
+      · simp only [hd, if_false, historyFailedCb]; exact hseq'
+  · have hne' : name.isEmpty = false := by simpa using hne
+    simp only [hne', Bool.false_eq_true, if_false, consultedPaths]
+    have hmain := readFirst_spec fs f join python delim comment s (mainCandidates dirs name sfx)
+    simp only at hmain
+    cases hm : (readFirst { fs := fs, cb := some f } join python delim comment s (mainCandidates dirs name sfx)).2 with
+    | error e =>
+      rw [pair_eta _ _ hm]; rw [hm] at hmain
+      simp only
+      have : historyFailedCb (Except.error (e, false) : Except (Err × Bool) (List KeyFile)) = isCbFailed (Except.error e : Except Err (Option KeyFile)) := by
+        cases e <;> rfl
+      rw [this]
+      exact seqSpec_weaken _ _ _ _ _ _ _ hmain (List.sublist_append_left _ _)
+    | ok main =>
+      rw [pair_eta _ _ hm]; rw [hm] at hmain
+      simp only
+      have hmain' := hmain
+      simp only [isCbFailed] at hmain'
+      have hseq := readSeq_spec fs f join python delim comment
+        (readFirst { fs := fs, cb := some f } join python delim comment s (mainCandidates dirs name sfx)).1
+        (dropinPaths fs dirs name sfx postfixes)
+      simp only at hseq
+      have hcomb := seqSpec_trans fs f _ _ _ _ _ _ hmain' hseq
+      cases hr : (readSeq { fs := fs, cb := some f } join python delim comment
+          (readFirst { fs := fs, cb := some f } join python delim comment s (mainCandidates dirs name sfx)).1
+          (dropinPaths fs dirs name sfx postfixes)).2 with
+      | error e =>
+        rw [pair_eta _ _ hr]; rw [hr] at hcomb
+        simp only
+        have : historyFailedCb (Except.error (e, true) : Except (Err × Bool) (List KeyFile)) = isCbFailed (Except.error e : Except Err (List KeyFile)) := by
+          cases e <;> rfl
+        rw [this]; exact hcomb
+      | ok drops =>
+        rw [pair_eta _ _ hr]; rw [hr] at hcomb
+        simp only
+        have hcomb' := hcomb
+        simp only [isCbFailed] at hcomb'
+        by_cases hd : (main.toList ++ drops).isEmpty = true
+        · simp only [hd, if_true, historyFailedCb]; exact hcomb'
+        · simp only [hd, if_false, historyFailedCb]; exact hcomb'
+
+theorem ite_parseDirs (c : Prop) [Decidable c] (k : KeyFile) (d : List Str) :
+    (if c then { k with parseDirs := d } else k).entries = k.entries ∧ (if c then { k with parseDirs := d } else k).groups = k.groups := by
+  split <;> exact ⟨rfl, rfl⟩
+theorem ite_confDirs (c : Prop) [Decidable c] (k : KeyFile) (d : List Str) :
+    (if c then { k with confDirs := d } else k).entries = k.entries ∧ (if c then { k with confDirs := d } else k).groups = k.groups := by
+  split <;> exact ⟨rfl, rfl⟩
+theorem prepareConfig_entries (kf : KeyFile) (p u n : Option Str) :
+    (prepareConfig kf p u n).1.entries = kf.entries ∧ (prepareConfig kf p u n).1.groups = kf.groups := by
+  unfold prepareConfig
+  simp only
+  exact ⟨(ite_parseDirs _ _ _).1.trans (ite_confDirs _ _ _).1, (ite_parseDirs _ _ _).2.trans (ite_confDirs _ _ _).2⟩
+
+/-- a failed layered read hands back no configuration: the caller's pointer is NULL, or still the
+    caller's own object (whose entries the read did not touch) -/
+theorem C06_no_config (ctx : RdCtx) (s : RdState) (slot : Option KeyFile)
+    (project usrSubdir name suffix : Option Str) (delim : Option Str) (comment : Str) :
+    let r := readConfig ctx s slot project usrSubdir name suffix delim comment
+    r.2.1 ≠ .success →
+      (slot = none ∧ r.2.2 = none) ∨ (∃ kf kf', slot = some kf ∧ r.2.2 = some kf' ∧ kf'.entries = kf.entries ∧ kf'.groups = kf.groups) := by
+  intro r hne
+  simp only [r] at hne ⊢
+  unfold readConfig at hne ⊢
+  simp only at hne ⊢
+  split at hne
+  · exact absurd rfl hne
+  · rename_i e heq
+    simp only [heq]
+    cases slot with
+    | none => left; exact ⟨rfl, rfl⟩
+    | some kf =>
+      right
+      exact ⟨kf, _, rfl, rfl, (prepareConfig_entries kf _ _ _).1, (prepareConfig_entries kf _ _ _).2⟩
+
+/-- the two-directory read hands back an object without any entry after a failure -/
+theorem C06_no_config_dirs (ctx : RdCtx) (s : RdState) (usr etc name suffix : Option Str) (delim : Option Str) (comment : Str) :
+    let r := readDirs ctx s usr etc name suffix delim comment
+    r.2.1 ≠ .success → ∃ kf, r.2.2 = some kf ∧ kf.entries = [] := by
+  intro r hne
+  simp only [r] at hne ⊢
+  unfold readDirs at hne ⊢
+  simp only at hne ⊢
+  split at hne
+  · exact absurd rfl hne
+  · rename_i e heq
+    simp only [heq]
+    exact ⟨_, rfl, rfl⟩
+
+/-- a failed history read hands back no history (the result carries an error, never a list) -/
+theorem C06_no_history (ctx : RdCtx) (s : RdState) (usr etc name suffix : Option Str) (delim : Option Str) (comment : Str)
+    (e : Err) (b : Bool) (h : (readDirsHistory ctx s usr etc name suffix delim comment).2 = .error (e, b)) :
+    ∀ l, (readDirsHistory ctx s usr etc name suffix delim comment).2 ≠ .ok l := by
+  intro l hl; rw [h] at hl; cases hl
+
+/-- non-vacuity: a tree with a main file and two drop-ins, the callback rejecting the second call -/
+example :
+    let fs : FS := (((({} : FS).add [0x2f,0x65,0x2f,0x63,0x2e,0x78] (.file [0x61,0x3d,0x31,0x0a] 0 0)).add
+      [0x2f,0x65,0x2f,0x63,0x2e,0x78,0x2e,0x64,0x2f,0x31,0x2e,0x78] (.file [0x62,0x3d,0x31,0x0a] 0 0)).add
+      [0x2f,0x65,0x2f,0x63,0x2e,0x78,0x2e,0x64,0x2f,0x32,0x2e,0x78] (.file [0x63,0x3d,0x31,0x0a] 0 0))
+    let r := readHistory { fs := fs, cb := some (fun k _ => k != 1) } { g := {} } [[0x2f,0x65]] (some [0x63]) (some [0x78]) (some [0x3d]) [0x23] false false []
+    cbPaths r.1.trace = [[0x2f,0x65,0x2f,0x63,0x2e,0x78], [0x2f,0x65,0x2f,0x63,0x2e,0x78,0x2e,0x64,0x2f,0x31,0x2e,0x78]] ∧
+    historyFailedCb r.2 = true ∧ r.1.trace.length = 3 := by decide
+
 end Econf
